@@ -10,7 +10,7 @@
    boxes each step talks about by plain tree traversals ("all ... descendants,
    in tree order").
 
-   Parameters (Section variables):
+   Section variables:
      forms_ctx  which boxes form a stacking context of their own
      level      the z-index of such a box (0 for 'auto')
      zsort      ANY function returning its argument ordered by ascending level,
